@@ -5,6 +5,8 @@ import (
 	"math"
 	"reflect"
 	"time"
+	"unicode"
+	"unicode/utf8"
 
 	"verif/harness/av"
 )
@@ -41,11 +43,15 @@ func Project(v interface{}, nameMap map[string]string) (*av.V, error) {
 	return out, p.err
 }
 
+// LowerFirst: "the struct's field names with the first letter lower-cased" - the first letter, whatever alphabet it
+// is from (a Go field must begin with an upper-case letter to be exported at all: Ärger, Étage, Ωmega; the peer's
+// field is ärger, étage, ωmega).
 func LowerFirst(s string) string {
-	if s != "" && s[0] >= 'A' && s[0] <= 'Z' {
-		return string(s[0]+32) + s[1:]
+	r, size := utf8.DecodeRuneInString(s)
+	if s == "" || r == utf8.RuneError {
+		return s
 	}
-	return s
+	return string(unicode.ToLower(r)) + s[size:]
 }
 
 // TypeName is the key under which gohessian's documentation says a type is
